@@ -157,6 +157,10 @@ def cases(tier, seed):
     for tup in itertools.product((0, 1, 3, 5, 8), repeat=3):
         for ops in ("ALALAL", "AALAL", "LAALL"):
             yield {"k": "hist", "files": [ALPHA[i] for i in tup], "ops": ops, "fill": "default"}
+    # ... and with additions that do not fit in between: they are refused and the listing still returns exactly the files stored
+    for ops in ("HAHL", "HHAL", "AHHLAL", "HAHLHL"):
+        for i in (0, 5, 8):
+            yield {"k": "hist", "files": [ALPHA[i], ALPHA[1], ALPHA[6]], "ops": ops, "fill": "default"}
     # write side onto pre-existing fragmentation: a file is added to an image (independent writer) whose files sit on scattered chains
     for bi in range(len(FRAG_BASES)):
         for n in (1, 2290, 2295, 4599, 7000, 20000):
@@ -315,7 +319,19 @@ def check_case(case):
         added, todo = [], list(case["files"])
         try:
             for step, op in enumerate(case["ops"]):
-                if op == "A" and todo:
+                if op == "H":       # a 40-granule file: the second one does not fit and must be refused
+                    f = fspec("ASC", 40 * 2304 - 9, "HUGE{}".format(step), "TXT", pat="ramp7")
+                    fits = sum((x["n"] + HDR[kind_of(x)]) // 2304 + 1 for x in added + [f]) <= 68
+                    try:
+                        df.add_file(C.to_coco(f))
+                        if not fits:
+                            bad("after {}: a file that does not fit was accepted".format(case["ops"][:step + 1]), "refused", "stored")
+                            break
+                        added.append(f)
+                    except Exception as e:
+                        if fits:
+                            raise
+                elif op == "A" and todo:
                     f = todo.pop(0)
                     df.add_file(C.to_coco(f))
                     added.append(f)
